@@ -2,6 +2,27 @@ import Utv.Util.ConvJson
 import Utv.Model.C12
 open Lean Utv Utv.J Utv.Conv Utv.ConvJson
 
+instance : Inhabited Utv.C12M.Ty := ⟨.plain (.obj 0)⟩
+
+open Utv.C12M in
+/-- member type of a Union: a plain target | {"seq": M, "k": kind} | {"map": [K, V]} | {"tup": [M…]} | {"cons": target, "c": [name, n]} -/
+partial def decodeTy (j : Json) : Ty :=
+  match obj? j "seq" with
+  | some e => .seqOf (seqKOfName (str! (fld j "k"))) (decodeTy e)
+  | none =>
+  match obj? j "map" with
+  | some kv => (match arr! kv with | [k, v] => .mapOf (decodeTy k) (decodeTy v) | _ => .plain (.obj 0))
+  | none =>
+  match obj? j "tup" with
+  | some ts => .tupleOf ((arr! ts).map decodeTy)
+  | none =>
+  match obj? j "cons" with
+  | some t => (match arr! (fld j "c") with
+      | [n, x] => .cons (decodeTarget t) (match str! n with
+          | "intGt" => .intGt (intOfJson x) | "intLe" => .intLe (intOfJson x) | _ => .strMaxLen (intOfJson x).toNat)
+      | _ => .plain (decodeTarget t))
+  | none => .plain (decodeTarget j)
+
 open Utv.C12M in
 def additionOf : String → Addition
   | "none" => .none | "no" => .no | "yes" => .yes | _ => .unset
@@ -49,9 +70,9 @@ def handle (j : Json) : Json :=
   | "union" =>
     let P := decodePrims (fld j "prims")
     let E := decodeEnv (fld j "env")
-    let ts := (arr! (fld j "members")).map decodeTarget
+    let ts := (arr! (fld j "members")).map decodeTy
     let v := decodeV (fld j "value")
-    let run (nec ndl : Bool) := encodeOutcome (Utv.C12M.unionParse (fun f t x => transform P E f t x) ⟨nec, ndl⟩ ts v)
+    let run (nec ndl : Bool) := encodeOutcome (Utv.C12M.unionParseTy P E ⟨nec, ndl⟩ ts v)
     Json.mkObj [("ff", run false false), ("ft", run false true), ("tf", run true false), ("tt", run true true)]
   | _ => Json.mkObj [("driver-error", Json.str "unknown op")]
 
